@@ -38,41 +38,50 @@ type c18Cfg struct {
 	Strategy string `json:"strategy"`
 	Threads  string `json:"threads"` // subset of P S A G T E
 	Sink     string `json:"sink"`    // plain | panic | reenter-stats | reenter-addsink | block
+	Buf0     bool   `json:"unbuffered_data_channel,omitempty"` // DataChannelSize 0 (accepted by the configuration): every Emit overflows unless the processor is waiting
 }
 
-func (c c18Cfg) name() string { return fmt.Sprintf("%s-%s-%s-%s", c.Kind, c.Strategy, c.Threads, c.Sink) }
+func (c c18Cfg) name() string {
+	n := fmt.Sprintf("%s-%s-%s-%s", c.Kind, c.Strategy, c.Threads, c.Sink)
+	if c.Buf0 {
+		n += "-buf0"
+	}
+	return n
+}
 
 func c18Configs(tier string) []c18Cfg {
 	var out []c18Cfg
 	for _, k := range c18KindOrder {
 		for _, st := range []string{"drop", "block", "expand"} {
-			out = append(out, c18Cfg{k, st, "PSA", "plain"})
+			out = append(out, c18Cfg{Kind: k, Strategy: st, Threads: "PSA", Sink: "plain"})
 		}
 	}
 	// other thread subsets and sink variants on the direct and tumbling-event kinds
 	for _, k := range []string{"direct", "tumbling-evt"} {
 		for _, th := range []string{"PS", "PSG", "PST", "PSE", "PPS"} {
-			out = append(out, c18Cfg{k, "drop", th, "plain"})
+			out = append(out, c18Cfg{Kind: k, Strategy: "drop", Threads: th, Sink: "plain"})
 		}
 		for _, sink := range []string{"panic", "reenter-stats", "reenter-addsink", "block"} {
-			out = append(out, c18Cfg{k, "drop", "PS", sink})
+			out = append(out, c18Cfg{Kind: k, Strategy: "drop", Threads: "PS", Sink: sink})
 		}
 	}
-	out = append(out, c18Cfg{"counting", "drop", "PS", "panic"}, c18Cfg{"cep", "drop", "PS", "reenter-stats"}, c18Cfg{"global", "block", "PSG", "plain"},
+	out = append(out, c18Cfg{Kind: "counting", Strategy: "drop", Threads: "PS", Sink: "panic"}, c18Cfg{Kind: "cep", Strategy: "drop", Threads: "PS", Sink: "reenter-stats"}, c18Cfg{Kind: "global", Strategy: "block", Threads: "PSG", Sink: "plain"},
 		// MATCH_RECOGNIZE delivers its flushed matches from inside Stop (a different dispatch path)
-		c18Cfg{"cep", "drop", "PS", "reenter-addsink"}, c18Cfg{"cep", "drop", "PS", "panic"}, c18Cfg{"cep", "block", "PSG", "reenter-addsink"})
+		c18Cfg{Kind: "cep", Strategy: "drop", Threads: "PS", Sink: "reenter-addsink"}, c18Cfg{Kind: "cep", Strategy: "drop", Threads: "PS", Sink: "panic"}, c18Cfg{Kind: "cep", Strategy: "block", Threads: "PSG", Sink: "reenter-addsink"})
 	// no concurrent Stop: a sink that panics on its first batch must not keep the later rows from being
 	// processed and delivered (liveness clause; with a racing Stop nothing can be demanded), and the panic
 	// must not escape through EmitSync
 	for _, k := range []string{"direct", "analytic", "counting", "global"} {
-		out = append(out, c18Cfg{k, "drop", "P", "panic"})
+		out = append(out, c18Cfg{Kind: k, Strategy: "drop", Threads: "P", Sink: "panic"})
 	}
-	out = append(out, c18Cfg{"direct", "drop", "E", "panic"}, c18Cfg{"direct", "drop", "PE", "panic"}, c18Cfg{"analytic", "block", "PE", "panic"},
-		c18Cfg{"direct", "drop", "P", "panic-async"}, c18Cfg{"counting", "drop", "P", "panic-async"}, c18Cfg{"direct", "drop", "PS", "panic-async"}, c18Cfg{"tumbling-evt", "drop", "PS", "panic-async"})
+	out = append(out, c18Cfg{Kind: "direct", Strategy: "drop", Threads: "E", Sink: "panic"}, c18Cfg{Kind: "direct", Strategy: "drop", Threads: "PE", Sink: "panic"}, c18Cfg{Kind: "analytic", Strategy: "block", Threads: "PE", Sink: "panic"},
+		c18Cfg{Kind: "direct", Strategy: "drop", Threads: "P", Sink: "panic-async"}, c18Cfg{Kind: "counting", Strategy: "drop", Threads: "P", Sink: "panic-async"}, c18Cfg{Kind: "direct", Strategy: "drop", Threads: "PS", Sink: "panic-async"}, c18Cfg{Kind: "tumbling-evt", Strategy: "drop", Threads: "PS", Sink: "panic-async"})
+	// (DataChannelSize 0 - an unbuffered input channel - is exercised by the free-running pass only: the scheduler
+	// models buffered channels and closed-only unbuffered ones, not rendezvous sends inside select)
 	if tier == "thorough" {
 		for _, k := range c18KindOrder {
 			for _, sink := range []string{"panic", "reenter-stats"} {
-				out = append(out, c18Cfg{k, "drop", "PSAG", sink})
+				out = append(out, c18Cfg{Kind: k, Strategy: "drop", Threads: "PSAG", Sink: sink})
 			}
 		}
 	}
@@ -96,6 +105,9 @@ func c18Run(cfg c18Cfg) explore.RunFunc {
 		var o c18Obs
 		res := sched.Run(sched.Config{Chooser: ch, MaxSteps: 60000, Trace: traceFn()}, func() {
 			perf := smallPerf(cfg.Strategy, 2, 2, 2)
+			if cfg.Buf0 {
+				perf.BufferConfig.DataChannelSize = 0
+			}
 			if cfg.Strategy == "expand" {
 				perf.BufferConfig.MaxBufferSize = 3
 				perf.OverflowConfig.ExpansionConfig.MinIncrement = 1
